@@ -74,10 +74,6 @@ func walkOptionMap(fieldDesc protoreflect.FieldDescriptor, mp protoreflect.Map) 
 		Children:  make([]OptionField, 0, mp.Len()),
 	}
 
-	if fieldDesc.MapValue().Kind() == protoreflect.MessageKind {
-		panic("map value is message, not supported")
-	}
-
 	// Range visits the entries in a random order, the printed file must not
 	// change from run to run.
 	keys := make([]protoreflect.MapKey, 0, mp.Len())
@@ -91,7 +87,12 @@ func walkOptionMap(fieldDesc protoreflect.FieldDescriptor, mp protoreflect.Map) 
 
 	for _, key := range keys {
 		val := mp.Get(key)
-		mapVal := walkOptionScalar(fieldDesc.MapValue(), val)
+		var mapVal OptionField
+		if fieldDesc.MapValue().Kind() == protoreflect.MessageKind {
+			mapVal = walkOptionMessage(fieldDesc.MapValue(), val.Message())
+		} else {
+			mapVal = walkOptionScalar(fieldDesc.MapValue(), val)
+		}
 		keyVal := walkOptionScalar(fieldDesc.MapKey(), key.Value())
 		mapVal.Key = "value"
 		keyVal.Key = "key"
